@@ -194,10 +194,8 @@ func (ctx Ctx) coqType(e ast.Expr) coq.Type {
 			ctx.unsupported(e, "non-empty interface")
 		}
 	case *ast.Ellipsis:
-		// NOTE: ellipsis types are not fully supported
-		// we emit the right type here but Goose doesn't know how to call a method
-		// which takes variadic parameters (it'll pass them as separate arguments)
-		return coq.SliceType{Value: ctx.coqType(e.Elt)}
+		// calls would pass the variadic arguments as separate arguments
+		ctx.unsupported(e, "variadic parameters")
 	case *ast.FuncType:
 		return ctx.coqFuncType(e)
 	case *ast.IndexExpr:
